@@ -239,3 +239,16 @@ Proof.
   split; [eexists; split; [vm_compute; reflexivity | repeat split] | ].
   exists 200%nat. split; [cbn; lia | ]. vm_compute. split; [discriminate | ]. eexists _, _. repeat split.
 Qed.
+
+(* ---------------- the translated iterator (init by exec, next with its gotos by execg) RUN by the kernel on seven concrete headers
+   - three present words with namespace resets, absent bits between present ones, a field beyond it_len, a vendor namespace with skip
+   octets, an undefined field, and three refusals - reports the model's hits and final code (instances of c09_code_rtnext_absent_pass /
+   _enoent among them; evaluations, not universally quantified) ---------------- *)
+From LW Require Import Proofs.CodeRadiotapNextRun.
+Example c09_code_rtnext_runs_agree :
+  code_run run_ex1 = model_run run_ex1 /\ model_run run_ex1 = ([(1, 16); (5, 17); (5, 18)], Some (-2)) /\
+  code_run run_ex2 = model_run run_ex2 /\ model_run run_ex2 = ([(0, 8); (1, 16); (2, 17); (3, 18); (5, 22); (14, 24)], Some (-22)) /\
+  code_run run_ex3 = model_run run_ex3 /\ model_run run_ex3 = ([(1, 12); (30, 14)], Some (-2)) /\
+  code_run run_ex4 = model_run run_ex4 /\ model_run run_ex4 = ([(1, 8)], Some (-2)) /\
+  code_run run_ex5 = ([], Some (-22)) /\ code_run run_ex6 = ([], Some (-22)) /\ code_run run_ex7 = ([], Some (-22)).
+Proof. vm_compute. repeat split. Qed.
